@@ -344,6 +344,7 @@ func runCheck(args []string) int {
 		Sat        int                    `json:"sat"`
 		Unsat      int                    `json:"unsat"`
 		Unknown    int                    `json:"unknown"`
+		Fallback   int                    `json:"decided_by_fallback_solver"`
 		SolverSecs float64                `json:"solver_secs"`
 		WallSecs   float64                `json:"wall_secs"`
 		Exhaustive bool                   `json:"exhaustive_within_bound"`
@@ -404,7 +405,7 @@ func runCheck(args []string) int {
 		}
 		r := env.Explore(fn, interp.ExploreOpts{Workers: w, Solver: "z3", Second: second, TimeoutMs: tmo, MaxSeconds: secs, Seed: seed, SampleModels: 4, Verbose: *verbose})
 		hr := hres{Spec: h, Paths: r.Paths, OK: r.OK, Cut: r.Cut, FailStop: r.FailStop, Inconcl: r.Inconcl + r.EngineErr, Steps: r.Steps, Branches: r.Branches,
-			Queries: r.Stats.Queries, Sat: r.Stats.NSat, Unsat: r.Stats.NUnsat, Unknown: r.Stats.NUnknown, SolverSecs: r.Stats.SolverSec, WallSecs: r.WallSecs,
+			Queries: r.Stats.Queries, Sat: r.Stats.NSat, Unsat: r.Stats.NUnsat, Unknown: r.Stats.NUnknown, Fallback: r.Stats.Fallback, SolverSecs: r.Stats.SolverSec, WallSecs: r.WallSecs,
 			Exhaustive: r.Exhaustive, Stopped: r.StoppedWhy, Why: r.InconclWhy, Funcs: len(r.Funcs), MaxDepth: r.MaxDepth}
 		for k := range r.Reached {
 			hr.Reached = append(hr.Reached, k)
